@@ -15,6 +15,8 @@ package main
 //          optimizer.liftIntoParPaths (the operators copied into scatter legs), in order
 //   sortLiftGuards : the conditions of the top-level `if … { return }` statements of the
 //          dag.Sort case of liftIntoParPaths (when a sort is NOT copied into the legs)
+//   rightStyleSwaps : the statements of `case "right":` in compiler/kernel/op.go (what is
+//          swapped before join.New for a right join: keys, parents, declared directions)
 //   sortedInputKeyRanges : the expressions the two loops range over that decide whether a
 //          summarize is told its input is sorted (optimizer.propagateSortKeyOp's dag.Summarize
 //          case, optimizer.isKeyOfSummarize): only the FIRST group-by key may count
@@ -307,6 +309,32 @@ func genC10(repo string) (string, error) {
 		return "", fmt.Errorf("%s: isKeyOfSummarize: %d range loops, expected 1", opf.pos(ik), len(ranges)-n0)
 	}
 	fmt.Fprintf(&b, "def sortedInputKeyRanges : List String := %s\n", leanStrList(ranges))
+
+	// ---- the right-join style: what the kernel swaps before join.New ----------------------
+	kf, err := parseFile(repo, "compiler/kernel/op.go")
+	if err != nil {
+		return "", err
+	}
+	var swaps []string
+	nright := 0
+	ast.Inspect(kf.f, func(n ast.Node) bool {
+		cc, ok := n.(*ast.CaseClause)
+		if !ok || len(cc.List) != 1 {
+			return true
+		}
+		if v, ok := strLit(cc.List[0]); !ok || v != "right" {
+			return true
+		}
+		nright++
+		for _, st := range cc.Body {
+			swaps = append(swaps, renderStmt(kf, st))
+		}
+		return false
+	})
+	if nright != 1 {
+		return "", fmt.Errorf("compiler/kernel/op.go: %d `case \"right\":` clauses, expected 1", nright)
+	}
+	fmt.Fprintf(&b, "def rightStyleSwaps : List String := %s\n", leanStrList(swaps))
 	return b.String(), nil
 }
 
